@@ -79,6 +79,54 @@ CHECKS = {
         "Statistics of empty clusters belong to C13; assignment ties discarded for the statistics checks.",
         "DESIGN.md section 4, C20",
     ),
+    "C04": (
+        "Hypothesis-generated chunkings + harness-owned Dask executor (generated task order, optional cloudpickle isolation); differential Dask vs in-memory",
+        "Generated-input search over estimators (k-means, GMM ML/MAP/k-means-initialised, ISV/JFA fit_using_array, WCCN, whitening), row and feature chunk compositions, executor order policies (graph order, reverse, seeded random choice among ready tasks) and isolation (every task and result round-tripped through cloudpickle): parameters, the k-means criterion and the number of iterations equal those of in-memory training.",
+        "'k-means||' excluded (third-party initialiser draws per block); stop decisions within 1e-6 of the threshold discarded; all topological orders are reachable by the executor but only sampled; real multi-process timing is not exercised in the quick tier.",
+        "DESIGN.md sections 3.3 and 4, C04",
+    ),
+    "C12": (
+        "Hypothesis-generated bag layouts (from_sequence and from_delayed with uneven/empty partitions) + harness-owned executor; differential bag vs list; duplicate-item metamorphic relation; enumeration of every partition count",
+        "Generated-input search for ISV, JFA and i-vector training from Dask bags: every generated partitioning (incl. empty, single-element, class-mixing partitions, unsorted labels), task order and isolation mode gives the in-memory model; duplicating an item changes the model exactly as in the list; every partition count 1..n is enumerated for small n.",
+        "Labels 0..K-1 as integer arrays; i-vector runs re-seed NumPy's global generator; tolerance 1e-7 relative.",
+        "DESIGN.md sections 3.3 and 4, C12",
+    ),
+    "C14": (
+        "Hypothesis-generated full-rank data, partitions, arbitrary integer label maps and row permutations; identity-covariance/scatter validity predicate; relabelling and permutation metamorphic relations; Dask differential",
+        "Generated-input search: whitening gives zero mean and identity sample covariance; WCCN gives within-class scatter / K = identity; both projections are lower-triangular with positive diagonal; WCCN weights are invariant under arbitrary (negative, huge, non-contiguous, unsorted) label values and row order; Dask equals NumPy; pinv on and off.",
+        "Condition numbers bounded by 1e6 (tolerance 1e5*eps*cond); whitening generated with F >= 2.",
+        "DESIGN.md section 4, C14",
+    ),
+    "C15": (
+        "Hypothesis-generated affine re-coordinatisations (per-feature scale of either sign and shift; rotation/scale/translation for k-means); metamorphic equivariance/invariance relations",
+        "Generated-input search: the same observable is evaluated on (data, parameters) and on the re-coordinatised problem; trained GMMs (ML, MAP) map to a*mu+b / a^2*var / same weights, log-likelihoods shift by -sum log|a|, linear scores, ISV/JFA scores, x, y, z and i-vectors are unchanged, the enrolled client mean follows the features, k-means centroids follow similarity transforms and the criterion scales by s^2. KF-1 recognised only by its exact wrong value in either coordinate system.",
+        "Fixed iteration counts (the relative-change stop rule is not shift-invariant by construction); tolerance scales with kappa=|b|/(|a| std) (kappa^2 for variance formulas); floor-active steps excluded.",
+        "DESIGN.md section 4, C15",
+    ),
+    "C16": (
+        "Model-based history generation (op lists: global-RNG perturbations, other fits, re-fits) with an equality invariant; row-permutation and class-renaming metamorphic relations",
+        "Generated histories over k-means, GMM, ISV, JFA (list and Dask bag) and WCCN: re-fitting a registered (configuration, data, random_state) triple after arbitrary global-RNG perturbations and other fits reproduces the first result to 1e-12; permuting the training rows and renaming class ids by any permutation of 0..K-1 leaves the model unchanged up to re-association rounding.",
+        "Row-permutation invariance is only claimed given the same initial centroids/parameters (seeded random initialisation picks rows by position by design).",
+        "DESIGN.md section 4, C16",
+    ),
+    "C17": (
+        "Model-based history generation (op lists of public GMM mutations) with a differential invariant against a freshly built machine and a SciPy reference after every step",
+        "Generated histories of setter calls (weights, means, variances below floors, scalar/vector/matrix/zero floors raised and lowered), single EM steps (ML and MAP), deepcopy, pickle, HDF5 save+from_hdf5 and save+load into a differently shaped machine: after every operation likelihoods and statistics equal those of a fresh machine with the same visible parameters and of the reference density, and variances >= current floors.",
+        "EM steps are skipped (counted) when a floor or variance is exactly 0.",
+        "DESIGN.md section 4, C17",
+    ),
+    "C18": (
+        "Hypothesis-generated reachable machines/statistics; round-trip oracle (bit-identical), continued-training differential, file re-save comparison, harness-written legacy layouts",
+        "Generated-input search: machines (ML and MAP, after EM steps, every floor form incl. floors below machine epsilon, every switch combination, caps and thresholds) and statistics survive 1-3 save/load round trips through paths or open files, via from_hdf5 or load into an object of another shape, bit for bit, equal under ==, with every recorded setting, and the original and reloaded machine continue training to bit-identical models; re-saved files have identical datasets; legacy-layout files equal their current-format counterparts.",
+        "None for max_fitting_steps/convergence_threshold cannot be written and is outside the generator.",
+        "DESIGN.md section 4, C18",
+    ),
+    "C19": (
+        "Model-based history generation over a pool of caller-owned objects and every public entry point; byte-snapshot invariant, repeatability, NaN-overwrite aliasing probes",
+        "Generated call sequences (3-10 calls over 18 entry-point groups, NumPy/Dask/bag inputs): after every call each pool member is byte-for-byte unchanged, repeating the call returns the same result, and after every training call overwriting private copies of the training data, statistics, initial centroids and MAP prior arrays leaves the trained parameters unchanged (np.shares_memory also checked).",
+        "Arrays assigned by the caller through a public setter are not considered 'trained from' (plain attribute semantics).",
+        "DESIGN.md section 4, C19",
+    ),
 }
 
 NOT_YET = {}
